@@ -67,7 +67,25 @@ def build_state(kind, statedir):
     """server in one of the three states, built with authorised requests"""
     from BPTK_Py.server import BptkServer
     from BPTK_Py.externalstateadapter import FileAdapter
-    app = BptkServer(__name__, bptk_factory, FileAdapter(False, statedir), TOKEN)
+
+    class CountingAdapter(FileAdapter):
+        """the real FileAdapter; write operations are counted (a refused request must not write at all, even
+        content that happens to equal what is stored already)"""
+        writes = 0
+
+        def _save_instance(self, state):
+            CountingAdapter.writes += 1
+            return FileAdapter._save_instance(self, state)
+
+        def _save_state(self, states):
+            CountingAdapter.writes += 1
+            return FileAdapter._save_state(self, states)
+
+        def delete_instance(self, uid):
+            CountingAdapter.writes += 1
+            return FileAdapter.delete_instance(self, uid)
+    app = BptkServer(__name__, bptk_factory, CountingAdapter(False, statedir), TOKEN)
+    app._verif_adapter = CountingAdapter
     c = app.test_client()
     inst = None
     if kind in ("session", "locked", "persisted"):
@@ -111,6 +129,7 @@ def snapshot(app, statedir):
         with open(os.path.join(statedir, fn), "rb") as f:
             files[fn] = hashlib.sha256(f.read()).hexdigest()
     snap["files"] = files
+    snap["external_writes"] = getattr(getattr(app, "_verif_adapter", None), "writes", 0)
     return snap
 
 
